@@ -50,6 +50,7 @@ type prodStep struct {
 	Part   int    `json:"part"`
 	N      int    `json:"n"`
 	To     int    `json:"to"`
+	From   int    `json:"from"` // resubmit: id of the returned message whose OBJECT is submitted again (as message `id`)
 	Name   string `json:"name"`
 	Key    string `json:"key"`
 	Size   int    `json:"size"`
@@ -430,10 +431,16 @@ func runProducerScenario(t testing.TB, rec *vRec, sc *prodScenario) {
 	var wg sync.WaitGroup
 	var outcomes int64
 	outcomeCh := make(chan struct{}, 1024)
+	// the message objects sarama handed back (op resubmit sends such an object again)
+	var retMu sync.Mutex
+	returned := map[int]*ProducerMessage{}
 	wg.Add(2)
 	go func() {
 		defer wg.Done()
 		for m := range prod.Successes() {
+			retMu.Lock()
+			returned[msgID(m)] = m
+			retMu.Unlock()
 			rec.Ev("success", kv{"id": msgID(m), "part": int(m.Partition), "off": int(m.Offset)})
 			atomic.AddInt64(&outcomes, 1)
 			select {
@@ -446,6 +453,9 @@ func runProducerScenario(t testing.TB, rec *vRec, sc *prodScenario) {
 	go func() {
 		defer wg.Done()
 		for e := range prod.Errors() {
+			retMu.Lock()
+			returned[msgID(e.Msg)] = e.Msg
+			retMu.Unlock()
 			rec.Ev("error", kv{"id": msgID(e.Msg), "err": errClass(e.Err)})
 			atomic.AddInt64(&outcomes, 1)
 			select {
@@ -565,6 +575,37 @@ func runProducerScenario(t testing.TB, rec *vRec, sc *prodScenario) {
 			c.submitted[st.ID] = sub
 			c.mu.Unlock()
 			rec.Ev("submit", kv{"id": st.ID, "part": st.Part, "keyed": st.Key != "", "size": len(val) + len(st.Key)})
+			sent := make(chan struct{})
+			go func() { prod.Input() <- m; close(sent) }()
+			if !vAwait(sent, vWait) {
+				rec.Ev("hang", kv{"what": "submit"})
+			}
+		case "resubmit":
+			// the application sends an object it got back on Successes()/Errors() again, as a new message
+			var m *ProducerMessage
+			for k := 0; k < 150 && m == nil; k++ {
+				retMu.Lock()
+				m = returned[st.From]
+				retMu.Unlock()
+				if m == nil {
+					time.Sleep(20 * time.Millisecond)
+				}
+			}
+			if m == nil {
+				rec.Ev("unsteered", kv{"what": fmt.Sprintf("resubmit %d: message %d was never returned", st.ID, st.From)})
+				m = &ProducerMessage{Topic: simTopic}
+			}
+			val := fmt.Sprintf("v%d|", st.ID)
+			m.Metadata = st.ID
+			m.Partition = int32(st.Part)
+			m.Key = nil
+			m.Headers = nil
+			m.Value = StringEncoder(val)
+			m.Timestamp = time.Time{}
+			c.mu.Lock()
+			c.submitted[st.ID] = &simSubmitted{value: []byte(val), tsMs: -1}
+			c.mu.Unlock()
+			rec.Ev("submit", kv{"id": st.ID, "part": st.Part, "keyed": false, "size": len(val), "resubmitted_object_of": st.From})
 			sent := make(chan struct{})
 			go func() { prod.Input() <- m; close(sent) }()
 			if !vAwait(sent, vWait) {
